@@ -1031,7 +1031,7 @@ def service_loops_survive(ctx, rule, which=None):
     return n
 
 
-def batch_items_isolated(ctx, rule, fq, call_pred, what):
+def batch_items_isolated(ctx, rule, fq, call_pred, what, under=None):
     """In a batch loop, the per-item call is protected per item: the `try`
     that contains it lies inside the loop body (a `try` around the whole
     loop ends the batch at the first failing item - the rest is never
@@ -1040,6 +1040,10 @@ def batch_items_isolated(ctx, rule, fq, call_pred, what):
     f = prog.func(fq)
     calls = [c for c in own_nodes(f.node) if isinstance(c, ast.Call) and
              call_pred(c)]
+    if under is not None:
+        cfg = ctx.cfg(f)
+        calls = [c for c in calls
+                 if U.guard_match(cfg, cfg.node_of(c), under[0], under[1])]
     if not calls:
         raise AnalysisError('%s: per-item call not found' % fq)
     for c in calls:
@@ -1560,3 +1564,79 @@ def rpc_request_sent_once(ctx, rule):
     if n_f < 15:
         raise AnalysisError('RPC client layer: only %d sending functions '
                             'found' % n_f)
+
+
+def context_round_trip(ctx, rule, names=None):
+    """The security context crosses every RPC hop and every scheduler job as
+    a dict: each Mistral-specific attribute (a named parameter of
+    MistralContext.__init__) is written by to_dict under its own name from
+    the attribute of that name, and restored by from_dict - by a
+    kwargs.setdefault(<name>, values.get(<name>...)) or through
+    FROM_DICT_EXTRA_KEYS of the base class.  An attribute that is written
+    but not restored silently becomes its default on the other side
+    (redelivered -> False, trust_id -> None ...)."""
+    prog = ctx.prog
+    C = 'mistral.context.MistralContext'
+    init = prog.func(C + '.__init__')
+    td = prog.func(C + '.to_dict')
+    fd = prog.func(C + '.from_dict')
+    attrs = [p for p in init.params if p not in ('self', 'kwargs')]
+    if len(attrs) < 8:
+        raise AnalysisError('MistralContext.__init__: attributes not found')
+    written = {}
+    for d in own_nodes(td.node):
+        if isinstance(d, ast.Dict):
+            for k, v in zip(d.keys, d.values):
+                if isinstance(k, ast.Constant):
+                    written[k.value] = norm(v)
+    restored = set()
+    for c in own_nodes(fd.node):
+        if isinstance(c, ast.Call) and U.call_name(c) == 'setdefault' and \
+                len(c.args) == 2 and isinstance(c.args[0], ast.Constant):
+            g = c.args[1]
+            if isinstance(g, ast.Call) and U.call_name(g) == 'get' and \
+                    g.args and isinstance(g.args[0], ast.Constant) and \
+                    g.args[0].value == c.args[0].value and \
+                    norm(g.func.value) == fd.params[1] and \
+                    norm(c.func.value) == 'kwargs':
+                restored.add(c.args[0].value)
+    extra = set()
+    mod = prog.module('mistral.context')
+    for x in ast.walk(mod):
+        if isinstance(x, ast.ClassDef) and x.name == 'MistralContext':
+            for st in x.body:
+                if isinstance(st, ast.Assign) and \
+                        dotted(st.targets[0]) == 'FROM_DICT_EXTRA_KEYS':
+                    v = prog.try_const('mistral.context', st.value)
+                    if v is None:
+                        raise AnalysisError('FROM_DICT_EXTRA_KEYS does not '
+                                            'fold')
+                    extra = set(v)
+    ret = [x for x in own_nodes(fd.node) if isinstance(x, ast.Return)]
+    oks = len(ret) == 1 and isinstance(ret[0].value, ast.Call) and \
+        U.call_name(ret[0].value) == 'from_dict' and \
+        any(k.arg is None and norm(k.value) == 'kwargs'
+            for k in ret[0].value.keywords) and \
+        [norm(a) for a in ret[0].value.args] == [fd.params[1]]
+    rule.check(oks, ctx.construct(fd, extra='hands values and kwargs to the '
+                                  'base class'),
+               'from_dict does not end in super().from_dict(values, '
+               '**kwargs)', ctx.loc(fd))
+    setattrs = {}
+    for x in own_nodes(init.node):
+        if isinstance(x, ast.Assign) and \
+                isinstance(x.targets[0], ast.Attribute) and \
+                norm(x.targets[0].value) == 'self':
+            setattrs[x.targets[0].attr] = norm(x.value)
+    for a in attrs:
+        if names is not None and a not in names:
+            continue
+        rule.check(written.get(a) == 'self.' + a and setattrs.get(a) == a,
+                   ctx.construct(td, extra='writes ' + a),
+                   'to_dict does not write %s from self.%s (or __init__ '
+                   'does not keep it)' % (a, a), ctx.loc(td))
+        rule.check(a in restored or a in extra,
+                   ctx.construct(fd, extra='restores ' + a),
+                   'from_dict does not restore %s: after an RPC hop / in a '
+                   'scheduler job it has its default, whatever the sender '
+                   'had' % a, ctx.loc(fd))
